@@ -166,7 +166,14 @@ type obs struct {
 	obj      reflect.Value
 }
 
+// the input being decoded is left on disk first: a fatal runtime error (out of
+// memory, stack exhaustion) cannot be recovered and would otherwise lose it
+var lastInputFile string
+
 func goDecode(e *entry, b []byte, measure bool) (o obs) {
+	if lastInputFile != "" && measure {
+		ioutil.WriteFile(lastInputFile, []byte(fmt.Sprintf("{\"what\":\"fatal-runtime-error-while-decoding\",\"type\":%q,\"bytes\":%q}\n", e.name, hex.EncodeToString(b))), 0644)
+	}
 	o.obj = e.mk()
 	var a0 uint64
 	if measure {
@@ -666,6 +673,7 @@ func loadCorpus(dir string) []hit {
 func gen(seed uint64, n int, outDir, corpusDir string) {
 	g := &genState{r: vf.NewRng(seed), res: vf.NewResult("C14", seed), distinct: map[string]bool{}, valid: map[string][][]byte{}}
 	r := g.r
+	lastInputFile = filepath.Join(outDir, "last_input.json")
 	for _, h := range loadCorpus(corpusDir) {
 		b, _ := hex.DecodeString(h.Bytes)
 		if h.Type == "interface" {
